@@ -3,6 +3,7 @@ package main
 // Translation of specification expressions to SMT terms, relative to a symbolic state.
 
 import (
+	"go/ast"
 	"os"
 	"runtime/debug"
 	"fmt"
@@ -203,6 +204,24 @@ func (e *Engine) trIdent(env *SpecEnv, name string) Val {
 				return v
 			}
 		}
+		// the name still exists elsewhere in the function but not in a scope visible here: the variable meant was
+		// renamed - identify it with the only local of the same type that is new since the baseline and visible here
+		if base := e.w.BaseLocals[funcDisplayName(env.fc.fn)]; base != nil && env.loop != nil {
+			if bt, was := base[name]; was && bt != "?" {
+				var hits []Val
+				for n2, t2 := range localsOf(env.fc.fn) {
+					if _, old := base[n2]; old || t2 != bt {
+						continue
+					}
+					if v, ok := e.localByName(env, n2); ok {
+						hits = append(hits, v)
+					}
+				}
+				if len(hits) == 1 {
+					return hits[0]
+				}
+			}
+		}
 	}
 	if g := e.lookupGhost(env, name); g != nil {
 		hn := "GH_" + g.Pkg.PkgPath + "." + g.Name
@@ -277,6 +296,19 @@ func (e *Engine) localByName(env *SpecEnv, name string) (Val, bool) {
 			}
 		}
 	}
+	// lexical scoping: in a loop invariant a name denotes a variable declared in a scope that encloses the loop or
+	// inside the loop; a variable of the same name in a sibling scope is another variable
+	if env.loop != nil && len(cands) > 0 {
+		if ln := e.loopNode(fn, env.loop.ordinal); ln != nil {
+			var vis []*ssa.Alloc
+			for _, c := range cands {
+				if e.visibleAt(fn, c, ln) {
+					vis = append(vis, c)
+				}
+			}
+			cands = vis
+		}
+	}
 	if len(cands) == 0 {
 		return Val{}, false
 	}
@@ -321,6 +353,64 @@ func (e *Engine) localByName(env *SpecEnv, name string) (Val, bool) {
 	}
 	c.GoT = elem
 	return c, true
+}
+
+// loopNode: the AST node of the k-th loop of fn in source order (the order of loop ordinals).
+func (e *Engine) loopNode(fn *ssa.Function, k int) ast.Node {
+	nodes, ok := e.loopNodes[fn]
+	if !ok {
+		var body ast.Node
+		switch s := fn.Syntax().(type) {
+		case *ast.FuncDecl:
+			body = s.Body
+		case *ast.FuncLit:
+			body = s.Body
+		}
+		if body != nil {
+			ast.Inspect(body, func(n ast.Node) bool {
+				switch n.(type) {
+				case *ast.FuncLit:
+					return false
+				case *ast.RangeStmt, *ast.ForStmt:
+					nodes = append(nodes, n)
+				}
+				return true
+			})
+		}
+		if e.loopNodes == nil {
+			e.loopNodes = map[*ssa.Function][]ast.Node{}
+		}
+		e.loopNodes[fn] = nodes
+	}
+	if k < 0 || k >= len(nodes) {
+		return nil
+	}
+	return nodes[k]
+}
+
+// visibleAt: the variable of alloc a is declared in a scope enclosing node n, or inside n.
+func (e *Engine) visibleAt(fn *ssa.Function, a *ssa.Alloc, n ast.Node) bool {
+	if !a.Pos().IsValid() {
+		return true
+	}
+	if n.Pos() <= a.Pos() && a.Pos() < n.End() {
+		return true
+	}
+	pkg := e.w.Pkgs[fn.Pkg.Pkg.Path()]
+	if pkg == nil || pkg.Types == nil {
+		return true
+	}
+	sc := pkg.Types.Scope().Innermost(a.Pos())
+	if sc == nil {
+		return true
+	}
+	// the declaring scope is the innermost scope at the declaration that actually holds the name
+	for s := sc; s != nil && s != types.Universe; s = s.Parent() {
+		if obj := s.Lookup(a.Comment); obj != nil && obj.Pos() == a.Pos() {
+			return s.Pos() <= n.Pos() && n.End() <= s.End()
+		}
+	}
+	return true
 }
 
 // loopCounter: number of completed iterations of the current range loop.
@@ -772,6 +862,12 @@ func (e *Engine) trCall(env *SpecEnv, n SCall) Val {
 	case "scanned":
 		// scanned(scanner): number of tokens the scanner has yielded so far
 		return intVal(sel(e.heapIn(env.st, "HF_bufio.Scanner_$pos", "(Array Int Int)"), arg(0).T))
+	case "scanSrc":
+		// scanSrc(scanner): the reader (token source) the scanner reads from
+		return Val{T: sel(e.heapIn(env.st, "HF_bufio.Scanner_$src", "(Array Int Int)"), arg(0).T), S: "Int", GoT: types.Universe.Lookup("any").Type()}
+	case "scanErr":
+		// scanErr(scanner): what Err() returns
+		return Val{T: sel(e.heapIn(env.st, "HF_bufio.Scanner_$err", "(Array Int Int)"), arg(0).T), S: "Int", GoT: types.Universe.Lookup("error").Type()}
 	case "curKey":
 		// curKey("range m"): the key yielded by the current iteration of the named map loop (also when the program
 		// discards it with _); curKey() names the loop of the invariant itself
